@@ -586,6 +586,11 @@ def parse_calldefs(module_identifier, analysis='auto'):
             msg = 'Cannot dynamically parse module={}.\nCaused by: {!r} {}'
             msg = msg.format(module_identifier, type(ex), ex)
             warnings.warn(msg)
+            if not need_dynamic:
+                # A python source file that cannot be imported still has its
+                # doctests: read them statically, so that running them
+                # reports the import error instead of nothing at all.
+                calldefs = static_analysis.parse_static_calldefs(fpath=module_identifier)
         except Exception as ex:
             msg = 'Cannot dynamically parse module={}.\nCaused by: {!r} {}'
             msg = msg.format(module_identifier, type(ex), ex)
